@@ -55,7 +55,8 @@ CLAIMED = {
             "Same stubs as C01; parent unspent values assumed in (0, MAX] (inductive invariant).", "DESIGN.md 4/C02"),
     "C05": ("CrossHair symbolic execution of the header validators per rule + z3 encoding of calculate_new_target generated from its source",
             "Per rule, the broken quantity is symbolic (32-byte id and target; stated/recorded height; three clocks; stated target choice with the "
-            "retarget kernel recorded at its call site on either side of a fork; evidence field bytes; a consistently forged evidence triple); "
+            "retarget kernel recorded at its call site on either side of a fork; evidence field bytes; a consistently forged evidence triple; "
+            "a block object whose remembered id and header id are independent symbolic 32-byte strings: the id rule is judged on the header); "
             "calculate_new_target is proved equal to min(floor(T*dt/1209600), 2^256-1) for every 256-bit T and dt >= 0 by z3 (two solvers); "
             "the real sampler equals a reference; the node's own assembly passes add_block at and next to a retarget boundary, and the miner's "
             "candidate after a head change builds on and is later than the new head.",
@@ -76,13 +77,13 @@ CLAIMED = {
     "C13": ("CrossHair symbolic execution of ChainManager pool operations on a node shell (one step from an invariant pool state)",
             "Solver verdict per step: a symbolic submission (reference pool x free index x signature kind x value) is admitted only if valid at "
             "the head and disjoint from the pool, otherwise the pool is untouched; after each kind of head change (extension mining a member / a "
-            "conflicting spend, switch to and from a sibling fork with a reward-only tip) the pool is exactly the members valid at the new head; "
+            "conflicting spend / several adjacent members at once, switch to and from a sibling fork with a reward-only tip) the pool is exactly the members valid at the new head; "
             "submission / head change / conflicting or forged (two inputs of one key, one unsigned) submission sequences, with the node's "
             "roll-back state different from its current state; a head change arriving while a submission is validated (modelled synchronously at the validation point when the lock is free) leaves "
             "no invalid member; relay only of new admitted transactions.",
             "Node shell; stubs as C01; pool <= 2-4 members; real thread schedules beyond the one modelled interleaving point are outside.", "DESIGN.md 4/C13"),
     "C12": ("CrossHair symbolic execution of MinerWatcher.handle_request_scrypt_input_message / handle_scrypt_output_message on a node shell",
-            "Solver verdict over symbolic clocks (assembly and discovery), nonce, parent timestamp and pool fees (0..2 pending transactions) at "
+            "Solver verdict over symbolic clocks (assembly and discovery), nonce, parent timestamp and pool fees (0..2 pending transactions, one- and two-input, the two inputs drawn from one earlier transaction) at "
             "ordinary, retarget-boundary and halving heights: the found block passes the node's own add_block, pays exactly subsidy + fees to the "
             "miner's key, is later than its parent, and is adopted (served state incl. a stale candidate that does not become the head, store "
             "calls, broadcast to every peer although one fails to send - nothing leaves before validation); a candidate handed out after a head "
